@@ -7,16 +7,17 @@ from mc.runner import Stats, split
 ID = "C51"
 LEVEL = "fault_enumeration"
 ENGINE = "mc.crashfs"
-RULE = ("all histories of length 1..N over {set(k,v), delete(k)} with k in {a,b}, v in {x, yyyy}; the prefix runs uncrashed, "
+RULE = ("all histories of length 1..N over {set(k,v), delete(k)} with k in {a,b}, v in {x, yyyy} (and the empty value for a); the prefix runs uncrashed, "
         "the last operation is crashed before every mutating system call and after every partial write length; the database "
         "is reopened, itself crashed at every system call of the recovery (one nesting level), and finally reopened cleanly and "
         "compared with a dict reference. non-trivial = distinct (history, crash plan, recovery crash plan) triples where the "
         "first crash left at least one file of the interrupted operation on disk (.new/.rpl or missing key)")
-BOUNDS = {"quick": "histories <= 6 operations, 2 keys, 2 values", "thorough": "histories <= 7 operations"}
+BOUNDS = {"quick": "histories <= 5 operations, 2 keys, values x / yyyy / empty", "thorough": "histories <= 6 operations"}
 ASSUMPTIONS = ["process-crash model: completed system calls persist, user-space buffers are lost, rename/unlink atomic"]
-MIN = {"quick": {"evaluations": 400000, "nontrivial": 200000, "outcomes": 3}}
+MIN = {"quick": {"evaluations": 150000, "nontrivial": 70000, "outcomes": 3}}
 
-OPS = [("set", b"a", b"x"), ("set", b"a", b"yyyy"), ("set", b"b", b"x"), ("set", b"b", b"yyyy"), ("del", b"a"), ("del", b"b")]
+OPS = [("set", b"a", b"x"), ("set", b"a", b"yyyy"), ("set", b"b", b"x"), ("set", b"b", b"yyyy"), ("del", b"a"), ("del", b"b"),
+       ("set", b"a", b"")]     # the empty value: an empty data file is still a value
 
 
 def _aliases():
@@ -144,7 +145,7 @@ def histories(n):
 
 
 def shards(tier, seed):
-    n = 6 if tier == "quick" else 7
+    n = 5 if tier == "quick" else 6
     return split(list(histories(n)), 96 if tier == "quick" else 256)
 
 
